@@ -20,18 +20,33 @@ func checkC02(r *harness.Run) harness.Coverage {
 	r.Rule = "all sentences of the projection fragment ([*], *, E.*, [], [?c], slices; right-hand sides incl. type(@), not_null(@,`1`), to_array(@), indices, multi-selects; terminators |, ), [], ||, &&, comparators) up to the structural weight bound that contain at least one projection, each against every document of the universe; outcome sets over every admissible object-member order; non-trivial = reference outcome non-null or error; distinct by (expression, document)"
 	r.Assumptions = []string{"reference semantics: model/eval.go (grounded on the compliance cases); object-member order is enumerated, never sorted away", "bounded expressions and documents as reported in bounds_completed"}
 	maxW := 5
-	var docs []interface{}
-	if r.Thorough() {
-		maxW = 6
-		docs = univ.Values(2, 2, univ.Js(`null`, `1`, `"a"`, `[]`, `{}`), []string{"a", "b"})
-	} else {
-		docs = univ.Values(2, 2, univ.Js(`null`, `1`, `[]`, `{}`), []string{"a"})
-	}
-	docs = append(docs, univ.Values(1, 3, univ.Js(`null`, `false`, `0`, `2`, `"b"`, `[]`), []string{"a", "b"})...)
-	docs = append(docs, projDocs...)
+	smallDocs := univ.Values(2, 2, univ.Js(`null`, `1`, `[]`, `{}`), []string{"a"})
+	smallDocs = append(smallDocs, univ.Values(1, 3, univ.Js(`null`, `false`, `0`, `2`, `"b"`, `[]`), []string{"a", "b"})...)
+	smallDocs = append(smallDocs, projDocs...)
+	docs := smallDocs
 	g := univ.NewGen(univ.ProjFragment())
-	exprs := buildExprs(g, maxW, func(_ []model.Tok, ast *model.Node) bool { return univ.HasProjection(ast) })
-	st := conform(r, exprs, docs, conformOpts{})
+	keep := func(_ []model.Tok, ast *model.Node) bool { return univ.HasProjection(ast) }
+	exprs := buildExprs(g, maxW, keep)
+	var st conformStats
+	if r.Thorough() {
+		// weight <= 5 against the large document universe, weight 6 against the heterogeneous documents
+		docs = append(univ.Values(2, 2, univ.Js(`null`, `1`, `"a"`, `[]`, `{}`), []string{"a", "b"}), smallDocs...)
+		st = conform(r, exprs, docs, conformOpts{})
+		var w6 []exprCase
+		for _, s := range g.Sentences(6) {
+			toks := g.Tokens(s)
+			ast, _, err := model.Parse(toks)
+			if err == nil && univ.HasProjection(ast) {
+				w6 = append(w6, exprCase{toks, model.Spell(toks, model.Tight), ast})
+			}
+		}
+		st.add(conform(r, w6, append(append([]interface{}{}, projDocs...), collisionDocs...), conformOpts{}))
+		r.Note("weight_6_expressions", len(w6))
+		exprs = append(exprs, w6[:1]...)
+		maxW = 6
+	} else {
+		st = conform(r, exprs, docs, conformOpts{})
+	}
 	// long postfix chains (projection scope across several steps) x the heterogeneous documents
 	chainW := 7
 	if r.Thorough() {
